@@ -33,6 +33,7 @@ var verifRefSpellings = []string{
 	"//h.example/root/doc.json#/components/schemas/A",
 	"x.json?v=2", // a reference with its own query
 	"x.json?v=2#/components/schemas/A",
+	"?v=3#/components/schemas/A", // a query only: the same document under another query
 }
 
 // verifDocWithRef builds a root document (JSON text) with one reference at the chosen position.
@@ -82,7 +83,7 @@ func verifExpectedRead(base *url.URL, ref string) string {
 	return base.ResolveReference(ru).String()
 }
 
-//verif:harness id=C11 tier=quick,thorough witness=end bounds="one reference at each of 14 positions (the ten resolver kinds, a schema inside a header, a parameter inside a callback, array items, media-type schema) x 22 spellings (relative, with a query of its own, ./, ../, d/../, absolute path, file://, http(s)://, scheme-relative, empty fragment, internal missing, malformed fragment, the root's own name, the root's own path on another host) x entry point in {LoadFromData, LoadFromDataWithPath, LoadFromURI from a path, LoadFromURI from an http URL, LoadFromURI from an http URL with a query} x IsExternalRefsAllowed; every read goes through ReadFromURIFunc"
+//verif:harness id=C11 tier=quick,thorough witness=end bounds="one reference at each of 14 positions (the ten resolver kinds, a schema inside a header, a parameter inside a callback, array items, media-type schema) x 23 spellings (relative, with a query of its own, ./, ../, d/../, absolute path, file://, http(s)://, scheme-relative, empty fragment, internal missing, malformed fragment, the root's own name, the root's own path on another host) x entry point in {LoadFromData, LoadFromDataWithPath, LoadFromURI from a path, LoadFromURI from an http URL, LoadFromURI from an http URL with a query} x IsExternalRefsAllowed; every read goes through ReadFromURIFunc"
 func verifH_C11_reads() {
 	slot := verifChoose("slot", 14)
 	ref := verifRefSpellings[verifChoose("spelling", len(verifRefSpellings))]
